@@ -431,6 +431,8 @@ def worlds(ctx):
                         pres += ['tagged_tip', 'tagged_elsewhere']
                 if lay == 'hotfix':
                     pres += ['archived_hotfix']
+                    if uq and queued:
+                        pres += ['merged_queue']        # an emptied hotfix queue (q/x.y.z.n) is left behind
                     if not queued:
                         pres += ['hotfix_tagged_tip']
                 for pre in pres:
